@@ -878,6 +878,7 @@ var ruleSeparators = &core.Rule{ID: "R09.3", Min: 6,
 			member[h] = true
 			conts = append(conts, contUnit{h, '}', true, true})
 		}
+		seenDesc := map[bool][]string{} // isObj -> tables of the tests that are what the grammar requires
 		for _, cont := range conts {
 			f := cont.f
 			// byte loads of the input parameter, by dominance relative to family calls
@@ -1089,6 +1090,9 @@ var ruleSeparators = &core.Rule{ID: "R09.3", Min: 6,
 						want = fmt.Sprintf("close:%q on:*", cont.closer)
 					}
 					s.Check(desc == want, key, c.Pos(u.Pos()), desc, fmt.Sprintf("byte table is {%s}, the JSON grammar requires {%s} at this point of the %s scanner", desc, want, map[bool]string{true: "object", false: "array"}[cont.isObj]))
+					if desc == want {
+						seenDesc[cont.isObj] = append(seenDesc[cont.isObj], desc)
+					}
 					if pendingSplit != "" && !(afterGuard && desc == "fail:* loop:','") {
 						s.Bad(pendingSplit+": separator test after the closer test", c.Pos(u.Pos()), "after a value the closer is tested but the test that only ',' continues does not follow")
 					}
@@ -1106,6 +1110,27 @@ var ruleSeparators = &core.Rule{ID: "R09.3", Min: 6,
 				continue // the tests are shared with the member helper; each is judged where it stands
 			}
 			s.Check(n >= 2, f.Name()+": byte tests found", c.Pos(f.Pos()), fmt.Sprint(n), "fewer than two structural byte tests in a container scanner")
+		}
+		// every point of the grammar has its test (a test that was removed is not in the tables above)
+		for _, need := range []struct {
+			isObj      bool
+			part, what string
+		}{
+			{true, "on:'\"'", "a member starts with a '\"' (key)"},
+			{true, "on:':'", "a key is followed by ':'"},
+			{true, "loop:','", "after a member only ',' continues"},
+			{true, "close:'}'", "'}' closes the object"},
+			{false, "loop:','", "after an element only ',' continues"},
+			{false, "close:']'", "']' closes the array"},
+		} {
+			found := false
+			for _, d := range seenDesc[need.isObj] {
+				if strings.Contains(d, need.part) {
+					found = true
+				}
+			}
+			name := map[bool]string{true: obj.Name(), false: arr.Name()}[need.isObj]
+			s.Check(found, fmt.Sprintf("%s: has the test `%s`", name, need.what), c.Pos(map[bool]*ssa.Function{true: obj, false: arr}[need.isObj].Pos()), need.part, fmt.Sprintf("no byte test of the %s scanner (and its member helpers) establishes that %s: input that lacks it is scanned as if it were there", map[bool]string{true: "object", false: "array"}[need.isObj], need.what))
 		}
 	}}
 
